@@ -84,7 +84,7 @@ def itemOf (j : Json) : Except String Item := do
 
 def variantOf (j : Json) : Except String Variant := do
   let v ← jobj j "variant"
-  pure ⟨← jbool v "d8", ← jbool v "d31", ← jbool v "d53"⟩
+  pure ⟨← jbool v "d8", ← jbool v "d31", ← jbool v "d53", ← jbool v "cde", ← jbool v "cdd"⟩
 
 def errJ : Err → Json
   | .attributeError => Json.str "AttributeError"
